@@ -392,6 +392,10 @@ def check(run):
     from .util import type_narrowed_dead_params
     n = type_narrowed_dead_params(run, "R03.8", [f for f in run.project.all_functions() if not f.module.name.startswith("mygrad.nnet")])
     run.count("type-tested parameters", n)
+    run.rule("R03.9", "`out` is consulted on every path of every function that accepts and uses it", floor=20)
+    from .util import path_dead_option
+    n2 = run.do(lambda r: path_dead_option(r, "R03.9", "out", "the result is not written into the caller's out= target on that branch (NumPy's namesake does)"))
+    run.count("functions with an `out` option", n2 or 0)
     run.do(r03_1)
     run.do(r03_2)
     run.do(r03_3)
